@@ -72,7 +72,7 @@ fn gen_rank_world(src: &mut Source, force_distinct: bool, fit_cap: bool) -> Rank
     let huge = fit_cap && force_distinct && src.chance(1, 250);
     let nrec = if huge {
         // beyond a thousand hits, limits in the hundreds (C07 only: C06 searches every record alone)
-        src.range(1030, 1300)
+        src.range(1100, 2600)
     } else {
         match src.weighted(&[10, 8, 4, 1]) {
             0 => src.range(1, 8),
@@ -87,7 +87,14 @@ fn gen_rank_world(src: &mut Source, force_distinct: bool, fit_cap: bool) -> Rank
     let general_vocab = gen_vocab(src, lang, Flavor::Clean, 2, 4);
     let recs: Vec<Rec> = (0..nrec)
         .map(|k| {
-            let t = if src.chance(3, 4) { small_vocab_title(src, &vocab) } else { gen_title(src, lang, &general_vocab, Flavor::Clean) };
+            let t = if huge {
+                // one word opens (almost) every title: well over a thousand records share its grams
+                format!("{} {}", vocab[0], src.pick(&vocab))
+            } else if src.chance(3, 4) {
+                small_vocab_title(src, &vocab)
+            } else {
+                gen_title(src, lang, &general_vocab, Flavor::Clean)
+            };
             (k + 1, t, ratings[k])
         })
         .collect();
@@ -98,6 +105,14 @@ fn gen_rank_world(src: &mut Source, force_distinct: bool, fit_cap: bool) -> Rank
     }
     let nq = src.range(1, 2);
     let titles: Vec<String> = recs.iter().map(|r| r.1.clone()).collect();
+    if huge {
+        let w: Vec<char> = vocab[0].chars().collect();
+        let queries = vec![vocab[0].clone(), w[..1 + src.below(w.len())].iter().collect()];
+        let mut perm: Vec<usize> = (0..nrec).collect();
+        shuffle(src, &mut perm);
+        let picks = (0..16).map(|_| src.below(1 << 16) as u16).collect();
+        return RankWorld { lang, recs, limit, queries, distinct, perm, picks };
+    }
     let queries = (0..nq)
         .map(|_| {
             if src.chance(3, 5) {
